@@ -886,7 +886,7 @@ def selftest():
 
 def subchecks(tier, seed):
     quick = tier == "quick"
-    n_ang, n_tf, n_co, n_mix = (2400, 2400, 800, 1600) if quick else (40000, 30000, 6000, 30000)
+    n_ang, n_tf, n_co, n_mix = (8000, 8000, 1600, 6000) if quick else (100000, 60000, 10000, 80000)
     ms = 14 if quick else 24
     return [
         SubCheck("angular-history", body, strategy=strat_angular(ms), examples=n_ang, cases=[c for c in pinned_cases() if c["keys"]], shards=16),
